@@ -305,6 +305,9 @@ structure AuthMerged (room : RoomT) (old new res : AuthNode) : Prop where
   newUserAdmins : ∀ c ∈ new.userAdminNodes, ∃ y ∈ res.userAdminNodes, rowEq y c = true
   newUsers : ∀ c ∈ new.userNodes, ∃ y ∈ res.userNodes, rowEq y c = true
   newRights : ∀ c ∈ new.rightNodes, ∃ y ∈ res.rightNodes, rowEq y c = true
+  newUserAdminEdges : ∀ c ∈ new.userAdminEdges, c ∈ res.userAdminEdges
+  newUserEdges : ∀ c ∈ new.userEdges, c ∈ res.userEdges
+  newRightEdges : ∀ c ∈ new.rightEdges, c ∈ res.rightEdges
   /-- nothing else: every entry of the result is the candidate's or a stored one -/
   onlyUserAdmins : ∀ y ∈ res.userAdminNodes, (∃ c ∈ new.userAdminNodes, rowEq y c = true) ∨ ∃ o ∈ old.userAdminNodes, rowEq y o = true
   onlyUsers : ∀ y ∈ res.userNodes, (∃ c ∈ new.userNodes, rowEq y c = true) ∨ ∃ o ∈ old.userNodes, rowEq y o = true
@@ -347,7 +350,7 @@ theorem prepareAuthWithHistory_sound {room : RoomT} {old new res : AuthNode} {up
                 obtain ⟨hres, _⟩ := h
                 subst hres
                 simp only [Bool.not_eq_true', Bool.not_eq_false] at husers hrights
-                refine ⟨rfl, ?_, ?_, ?_, ?_, ?_, ?_, ?_, ?_, ?_, ?_, ?_, ?_, ?_, ?_, ?_⟩
+                refine ⟨rfl, ?_, ?_, ?_, ?_, ?_, ?_, ?_, ?_, ?_, ?_, ?_, ?_, ?_, ?_, ?_, ?_, ?_, ?_⟩
                 · intro o ho; obtain ⟨y, hy, he⟩ := mergeRows_old hua ho; exact ⟨y, mem_sortAsc.mpr hy, he⟩
                 · intro o ho; obtain ⟨y, hy, he⟩ := mergeRows_old hu ho; exact ⟨y, mem_sortAsc.mpr hy, he⟩
                 · intro o ho; obtain ⟨y, hy, he⟩ := mergeRows_old hr ho; exact ⟨y, mem_sortAsc.mpr hy, he⟩
@@ -357,6 +360,9 @@ theorem prepareAuthWithHistory_sound {room : RoomT} {old new res : AuthNode} {up
                 · intro c hc; obtain ⟨y, hy, he⟩ := mergeRows_cand hua hc; exact ⟨y, mem_sortAsc.mpr hy, he⟩
                 · intro c hc; obtain ⟨y, hy, he⟩ := mergeRows_cand hu hc; exact ⟨y, mem_sortAsc.mpr hy, he⟩
                 · intro c hc; obtain ⟨y, hy, he⟩ := mergeRows_cand hr hc; exact ⟨y, mem_sortAsc.mpr hy, he⟩
+                · intro c hc; exact mem_sortAsc.mpr (mergeEdges_cand hc)
+                · intro c hc; exact mem_sortAsc.mpr (mergeEdges_cand hc)
+                · intro c hc; exact mem_sortAsc.mpr (mergeEdges_cand hc)
                 · intro y hy; exact mem_mergeRows hua (mem_sortAsc.mp hy)
                 · intro y hy; exact mem_mergeRows hu (mem_sortAsc.mp hy)
                 · intro y hy; exact mem_mergeRows hr (mem_sortAsc.mp hy)
@@ -466,13 +472,24 @@ structure AuthsMerged (old cand res : List AuthNode) : Prop where
   /-- a group that is not a stored one is the candidate's, untouched -/
   newUntouched : ∀ a ∈ res, old.any (·.node.id = a.node.id) = false → a ∈ cand
 
+theorem groupForMerge_lists (o n : AuthNode) :
+    (groupForMerge o n).userAdminNodes = n.userAdminNodes ∧ (groupForMerge o n).userNodes = n.userNodes ∧
+    (groupForMerge o n).rightNodes = n.rightNodes ∧ (groupForMerge o n).userAdminEdges = n.userAdminEdges ∧
+    (groupForMerge o n).userEdges = n.userEdges ∧ (groupForMerge o n).rightEdges = n.rightEdges := by
+  unfold groupForMerge; split <;> simp
+
+theorem groupForMerge_id {o n : AuthNode} (h : n.node.id = o.node.id) : (groupForMerge o n).node.id = o.node.id := by
+  unfold groupForMerge; split
+  · exact h
+  · rfl
+
 theorem mergeAuths_sound {room : RoomT} {old cand res : List AuthNode} {upd upd' : Bool}
     (h : mergeAuths room old cand upd = some (.ok (res, upd'))) : AuthsMerged old cand res := by
   induction old generalizing cand upd with
   | nil =>
     simp only [mergeAuths, Option.some.injEq, Except.ok.injEq, Prod.mk.injEq] at h
     obtain ⟨rfl, _⟩ := h
-    exact ⟨fun o ho => by cases ho, fun c hc => ⟨c, hc, GroupCovers.refl c⟩, fun a ha _ => ha⟩
+    exact ⟨fun o ho => (by cases ho), fun c hc => ⟨c, hc, GroupCovers.refl c⟩, fun a ha _ => ha⟩
   | cons o rest ih =>
     unfold mergeAuths at h
     split at h
@@ -497,77 +514,22 @@ theorem mergeAuths_sound {room : RoomT} {old cand res : List AuthNode} {upd upd'
         · cases h
         · cases h
         · next n2 u hprep =>
-          have hn : n ∈ cand := List.mem_of_find?_eq_some hf
           have hnid : n.node.id = o.node.id := by simpa using List.find?_some hf
           have pm := prepareAuthWithHistory_sound hprep
           have m := ih h
           obtain ⟨hin, hrest⟩ := mem_replaceAuth (n2 := n2) hf
-          -- the group handed to `prepare_auth_with_history` has the candidate's lists
-          have hn2id : n2.node.id = o.node.id := by
-            rw [pm.sameNode]
-            split
-            · exact hnid
-            · rfl
+          have hn2id : n2.node.id = o.node.id := by rw [pm.sameNode]; exact groupForMerge_id hnid
+          obtain ⟨l1, l2, l3, l4, l5, l6⟩ := groupForMerge_lists o n
           have cov_o : GroupCovers o n2 :=
             ⟨hn2id, pm.oldUserAdmins, pm.oldUsers, pm.oldRights, pm.oldUserAdminEdges, pm.oldUserEdges, pm.oldRightEdges⟩
           have cov_n : GroupCovers n n2 := by
             refine ⟨hn2id.trans hnid.symm, ?_, ?_, ?_, ?_, ?_, ?_⟩
-            · intro x hx; apply pm.newUserAdmins; split <;> exact hx
-            · intro x hx; apply pm.newUsers; split <;> exact hx
-            · intro x hx; apply pm.newRights; split <;> exact hx
-            · intro x hx
-              have : x ∈ (if decide (o.node.mdate < n.node.mdate) = true then
-                  { n with node := { n.node with stored := true } }
-                else { n with node := o.node, needUpdate := false } : AuthNode).userAdminEdges := by split <;> exact hx
-              obtain ⟨y, hy, he⟩ : ∃ y ∈ n2.userAdminEdges, edgeEq y x = true := by
-                have hh := hprep
-                unfold prepareAuthWithHistory at hh
-                split at hh
-                · cases hh
-                · simp only [Option.some.injEq] at hh
-                  repeat (first | (split at hh; (first | cases hh | skip)))
-                  all_goals
-                    first
-                    | (simp only [Except.ok.injEq, Prod.mk.injEq] at hh
-                       obtain ⟨hres, _⟩ := hh
-                       subst hres
-                       exact ⟨x, mem_sortAsc.mpr (mergeEdges_cand this), edgeEq_refl x⟩)
-                    | skip
-              exact ⟨y, hy, he⟩
-            · intro x hx
-              have : x ∈ (if decide (o.node.mdate < n.node.mdate) = true then
-                  { n with node := { n.node with stored := true } }
-                else { n with node := o.node, needUpdate := false } : AuthNode).userEdges := by split <;> exact hx
-              have hh := hprep
-              unfold prepareAuthWithHistory at hh
-              split at hh
-              · cases hh
-              · simp only [Option.some.injEq] at hh
-                repeat (first | (split at hh; (first | cases hh | skip)))
-                all_goals
-                  first
-                  | (simp only [Except.ok.injEq, Prod.mk.injEq] at hh
-                     obtain ⟨hres, _⟩ := hh
-                     subst hres
-                     exact ⟨x, mem_sortAsc.mpr (mergeEdges_cand this), edgeEq_refl x⟩)
-                  | skip
-            · intro x hx
-              have : x ∈ (if decide (o.node.mdate < n.node.mdate) = true then
-                  { n with node := { n.node with stored := true } }
-                else { n with node := o.node, needUpdate := false } : AuthNode).rightEdges := by split <;> exact hx
-              have hh := hprep
-              unfold prepareAuthWithHistory at hh
-              split at hh
-              · cases hh
-              · simp only [Option.some.injEq] at hh
-                repeat (first | (split at hh; (first | cases hh | skip)))
-                all_goals
-                  first
-                  | (simp only [Except.ok.injEq, Prod.mk.injEq] at hh
-                     obtain ⟨hres, _⟩ := hh
-                     subst hres
-                     exact ⟨x, mem_sortAsc.mpr (mergeEdges_cand this), edgeEq_refl x⟩)
-                  | skip
+            · intro x hx; exact pm.newUserAdmins x (l1 ▸ hx)
+            · intro x hx; exact pm.newUsers x (l2 ▸ hx)
+            · intro x hx; exact pm.newRights x (l3 ▸ hx)
+            · intro x hx; exact ⟨x, pm.newUserAdminEdges x (l4 ▸ hx), edgeEq_refl x⟩
+            · intro x hx; exact ⟨x, pm.newUserEdges x (l5 ▸ hx), edgeEq_refl x⟩
+            · intro x hx; exact ⟨x, pm.newRightEdges x (l6 ▸ hx), edgeEq_refl x⟩
           refine ⟨?_, ?_, ?_⟩
           · intro o' ho'
             rcases List.mem_cons.mp ho' with rfl | ho'
@@ -584,5 +546,344 @@ theorem mergeAuths_sound {room : RoomT} {old cand res : List AuthNode} {upd upd'
             rcases replaceAuth_mem (m.newUntouched a ha hno.2) with h1 | h1
             · exact h1
             · exact absurd (by rw [h1, hn2id]) hno.1
+
+/-! ### groups that are new to a known room -/
+
+/-- `prepare_new_auth` succeeded: users signed by a user admin of the group itself, rights by an
+    admin, and — only with the intended check — user admins by an admin -/
+theorem prepareNewAuth_sound {d : Defects} {room : RoomT} {a : AuthNode} (h : prepareNewAuth d room a = .ok ()) :
+    ∃ au, a.parse = .ok au ∧
+      (∀ n ∈ a.userNodes, au.canAdminUsers n.author n.mdate = true) ∧
+      (∀ n ∈ a.rightNodes, room.isAdmin n.author n.mdate = true) ∧
+      (d.newGroupUserAdminUnchecked = false → ∀ n ∈ a.userAdminNodes, room.isAdmin n.author n.mdate = true) := by
+  unfold prepareNewAuth at h
+  split at h
+  · cases h
+  · next au hp =>
+    refine ⟨au, hp, ?_⟩
+    split at h
+    · cases h
+    · next h1 =>
+      split at h
+      · cases h
+      · next h2 =>
+        split at h
+        · cases h
+        · next h3 =>
+          simp only [Bool.not_eq_true', Bool.not_eq_false] at h1 h2
+          refine ⟨fun n hn => List.all_eq_true.mp h1 n hn, fun n hn => List.all_eq_true.mp h2 n hn, ?_⟩
+          intro hd n hn
+          simp only [hd, Bool.not_false, Bool.true_and, Bool.not_eq_true', Bool.not_eq_false] at h3
+          exact List.all_eq_true.mp h3 n hn
+
+theorem checkNewAuths_sound {d : Defects} {room : RoomT} {old l : List AuthNode} {u : Bool}
+    (h : checkNewAuths d room old l = .ok u) :
+    ∀ a ∈ l, old.any (·.node.id = a.node.id) = false →
+      room.isAdmin a.node.author a.node.mdate = true ∧ prepareNewAuth d room a = .ok () := by
+  induction l generalizing u with
+  | nil => intro a ha; cases ha
+  | cons b rest ih =>
+    unfold checkNewAuths at h
+    intro a ha hno
+    split at h
+    · next hold =>
+      rcases List.mem_cons.mp ha with rfl | ha
+      · rw [hold] at hno; cases hno
+      · exact ih h a ha hno
+    · split at h
+      · cases h
+      · next hadm =>
+        split at h
+        · cases h
+        · next hp =>
+          split at h
+          · cases h
+          · next u' hrest =>
+            rcases List.mem_cons.mp ha with rfl | ha
+            · simp only [Bool.not_eq_true', Bool.not_eq_false] at hadm
+              exact ⟨hadm, hp⟩
+            · exact ih hrest a ha hno
+
+/-! ### a known room: `prepare_room_with_history` as a whole -/
+
+/-- what an accepted update of a known room established -/
+structure RoomMerged (d : Defects) (room : RoomT) (old cand merged : RoomNode) : Prop where
+  /-- **monotone** -/
+  oldAdmins : ∀ o ∈ old.adminNodes, ∃ y ∈ merged.adminNodes, rowEq y o = true
+  oldAdminEdges : ∀ o ∈ old.adminEdges, ∃ y ∈ merged.adminEdges, edgeEq y o = true
+  oldAuthEdges : ∀ o ∈ old.authEdges, ∃ y ∈ merged.authEdges, edgeEq y o = true
+  oldGroups : ∀ o ∈ old.authNodes, ∃ a ∈ merged.authNodes, GroupCovers o a
+  /-- nothing but the candidate's and the stored entries -/
+  onlyAdmins : ∀ y ∈ merged.adminNodes, (∃ c ∈ cand.adminNodes, rowEq y c = true) ∨ ∃ o ∈ old.adminNodes, rowEq y o = true
+  /-- **entitled additions**: each new admin entry's author is an admin at the entry's date in the
+      loaded room as extended by the new admin entries before it -/
+  entitledAdmins : ∀ i n, merged.adminNodes[i]? = some n → isNew old.adminNodes n = true →
+    (extendAdmins old.adminNodes room (merged.adminNodes.take i)).isAdmin n.author n.mdate = true
+  /-- a group that is new to the room is the candidate's; its row and rights are signed by admins of
+      the extended room, its users by a user admin of the group -/
+  newGroups : ∀ a ∈ merged.authNodes, old.authNodes.any (·.node.id = a.node.id) = false →
+    a ∈ cand.authNodes ∧
+    (extendAdmins old.adminNodes room merged.adminNodes).isAdmin a.node.author a.node.mdate = true ∧
+    prepareNewAuth d (extendAdmins old.adminNodes room merged.adminNodes) a = .ok ()
+  /-- the loaded room will be the parse of the merged definition -/
+  parses : ∃ r, merged.parse = .ok r
+  /-- the room row (intended check only) -/
+  roomRow : d.roomRowUnchecked = false →
+    rowEq cand.node old.node = true ∨
+    (old.node.mdate < cand.node.mdate ∧ cand.node.ent = 100 ∧ room.isAdmin cand.node.author cand.node.mdate = true)
+  /-- the pass over the stored groups (entitlement of their new entries: `AuthMerged`) -/
+  groups : ∃ upd upd', mergeAuths (extendAdmins old.adminNodes room merged.adminNodes) old.authNodes cand.authNodes upd
+    = some (.ok (merged.authNodes, upd'))
+
+theorem prepareWithHistory_sound {d : Defects} {room : RoomT} {old cand merged : RoomNode} {upd : Bool}
+    (h : prepareWithHistory d room old cand = some (.ok (merged, upd))) : RoomMerged d room old cand merged := by
+  unfold prepareWithHistory at h
+  split at h
+  · cases h
+  · next hrow =>
+    cases ha0 : mergeRows old.adminNodes cand.adminNodes with
+    | error e => rw [ha0] at h; cases h
+    | ok a0 =>
+      rw [ha0] at h
+      simp only at h
+      cases hadm : checkNewAdmins old.adminNodes room (sortAsc (·.mdate) a0) with
+      | error e => rw [hadm] at h; cases h
+      | ok room1 =>
+        rw [hadm] at h
+        simp only at h
+        cases hmerge : mergeAuths room1 old.authNodes cand.authNodes ((sortAsc (·.mdate) a0).any (isNew old.adminNodes)) with
+        | none => rw [hmerge] at h; cases h
+        | some r1 =>
+          rw [hmerge] at h
+          cases r1 with
+          | error e => cases h
+          | ok p =>
+            obtain ⟨auths, upd1⟩ := p
+            simp only at h
+            cases hnew : checkNewAuths d room1 old.authNodes auths with
+            | error e => rw [hnew] at h; cases h
+            | ok upd2 =>
+              rw [hnew] at h
+              simp only at h
+              cases hparse : (mergedNode old cand a0 auths).parse with
+              | error e => rw [hparse] at h; cases h
+              | ok r =>
+                rw [hparse] at h
+                simp only [Option.some.injEq, Except.ok.injEq, Prod.mk.injEq] at h
+                obtain ⟨hm, _⟩ := h
+                subst hm
+                obtain ⟨hroom1, hent⟩ := checkNewAdmins_entitled hadm
+                have am := mergeAuths_sound hmerge
+                refine ⟨?_, ?_, ?_, am.oldCovered, ?_, hent, ?_, ⟨r, hparse⟩, ?_, ?_⟩
+                · intro o ho; obtain ⟨y, hy, he⟩ := mergeRows_old ha0 ho; exact ⟨y, mem_sortAsc.mpr hy, he⟩
+                · intro o ho; obtain ⟨y, hy, he⟩ := mergeEdges_old (cand := cand.adminEdges) ho
+                  exact ⟨y, mem_sortAsc.mpr hy, he⟩
+                · intro o ho; exact mergeEdges_old ho
+                · intro y hy; exact mem_mergeRows ha0 (mem_sortAsc.mp hy)
+                · intro a ha hno
+                  have := checkNewAuths_sound hnew a ha hno
+                  rw [hroom1] at this
+                  exact ⟨am.newUntouched a ha hno, this.1, this.2⟩
+                · intro hd
+                  simp only [hd, Bool.not_false, Bool.true_and, Bool.not_eq_true', Bool.not_eq_false] at hrow
+                  simp only [Bool.or_eq_true, Bool.and_eq_true, decide_eq_true_eq] at hrow
+                  rcases hrow with h1 | ⟨⟨h1, h2⟩, h3⟩
+                  · exact Or.inl h1
+                  · exact Or.inr ⟨h1, h2, h3⟩
+                · show ∃ upd upd', mergeAuths (extendAdmins old.adminNodes room (sortAsc (·.mdate) a0)) old.authNodes
+                    cand.authNodes upd = some (.ok (auths, upd'))
+                  rw [← hroom1]; exact ⟨_, _, hmerge⟩
+
+/-! ### a room that is not known yet -/
+
+/-- **new room**: accepted only if the whole candidate parses and every entry's author is an admin,
+    at the entry's date, in the room parsed from it -/
+theorem prepareNewRoom_sound {cand : RoomNode} {room : RoomT} (h : prepareNewRoom cand = .ok room) :
+    cand.parse = .ok room ∧
+    (∀ n ∈ cand.adminNodes, room.isAdmin n.author n.mdate = true) ∧
+    ∀ a ∈ cand.authNodes, room.isAdmin a.node.author a.node.mdate = true ∧
+      (∀ n ∈ a.userNodes, room.isAdmin n.author n.mdate = true) ∧
+      (∀ n ∈ a.rightNodes, room.isAdmin n.author n.mdate = true) ∧
+      (∀ n ∈ a.userAdminNodes, room.isAdmin n.author n.mdate = true) := by
+  unfold prepareNewRoom at h
+  split at h
+  · cases h
+  · next r hp =>
+    split at h
+    · next hall =>
+      simp only [Except.ok.injEq] at h
+      subst h
+      simp only [Bool.and_eq_true, List.all_eq_true] at hall
+      refine ⟨hp, hall.1, fun a ha => ?_⟩
+      obtain ⟨⟨⟨h1, h2⟩, h3⟩, h4⟩ := hall.2 a ha
+      exact ⟨h1, h2, h3, h4⟩
+    · cases h
+
+/-! ### the code as written coincides with the intended checks on candidates that pass them -/
+
+theorem prepareNewAuth_congr {d : Defects} {room : RoomT} {a : AuthNode}
+    (g : a.userAdminNodes.all (fun n => room.isAdmin n.author n.mdate) = true) :
+    prepareNewAuth d room a = prepareNewAuth Defects.none room a := by
+  unfold prepareNewAuth
+  simp [g]
+
+theorem checkNewAuths_congr {room : RoomT} {old l : List AuthNode}
+    (g : ∀ a ∈ l, old.any (·.node.id = a.node.id) = false → a.userAdminNodes = []) :
+    checkNewAuths Defects.asImplemented room old l = checkNewAuths Defects.none room old l := by
+  induction l with
+  | nil => rfl
+  | cons a rest ih =>
+    have ihr := ih (fun b hb => g b (List.mem_cons_of_mem _ hb))
+    unfold checkNewAuths
+    cases hold : old.any (·.node.id = a.node.id)
+    · have he := g a List.mem_cons_self hold
+      have hp : prepareNewAuth Defects.asImplemented room a = prepareNewAuth Defects.none room a :=
+        prepareNewAuth_congr (by rw [he]; rfl)
+      simp only [Bool.false_eq_true, if_false, hp, ihr]
+    · simp only [if_true, ihr]
+
+/-- the candidate has none of the shapes the code does not check -/
+def candGuard (s : RStore) (cand : RoomNode) : Bool :=
+  cand.placingOk &&
+  match s.rooms.find? (·.id = cand.node.id), readBack s cand.node.id with
+  | some room, some old =>
+    (rowEq cand.node old.node ||
+      (old.node.mdate < cand.node.mdate && cand.node.ent = 100 && room.isAdmin cand.node.author cand.node.mdate)) &&
+    cand.authNodes.all fun a => old.authNodes.any (·.node.id = a.node.id) || a.userAdminNodes.isEmpty
+  | _, _ => true
+
+theorem prepareWithHistory_congr {room : RoomT} {old cand : RoomNode}
+    (g2 : (rowEq cand.node old.node ||
+      (old.node.mdate < cand.node.mdate && cand.node.ent = 100 && room.isAdmin cand.node.author cand.node.mdate)) = true)
+    (g3 : ∀ a ∈ cand.authNodes, old.authNodes.any (·.node.id = a.node.id) = false → a.userAdminNodes = []) :
+    prepareWithHistory Defects.asImplemented room old cand = prepareWithHistory Defects.none room old cand := by
+  unfold prepareWithHistory
+  simp only [Defects.asImplemented, Defects.none, Bool.not_true, Bool.false_and, Bool.false_eq_true, if_false,
+    Bool.not_false, Bool.true_and, g2]
+  cases ha0 : mergeRows old.adminNodes cand.adminNodes with
+  | error e => rfl
+  | ok a0 =>
+    simp only
+    cases hadm : checkNewAdmins old.adminNodes room (sortAsc (·.mdate) a0) with
+    | error e => rfl
+    | ok room1 =>
+      simp only
+      cases hmerge : mergeAuths room1 old.authNodes cand.authNodes ((sortAsc (·.mdate) a0).any (isNew old.adminNodes)) with
+      | none => rfl
+      | some r1 =>
+        cases r1 with
+        | error e => rfl
+        | ok p =>
+          obtain ⟨auths, upd1⟩ := p
+          simp only
+          have am := mergeAuths_sound hmerge
+          have := checkNewAuths_congr (room := room1) (old := old.authNodes) (l := auths)
+            (fun a ha hno => g3 a (am.newUntouched a ha hno) hno)
+          simp only [Defects.asImplemented, Defects.none] at this
+          rw [this]
+
+/-- **C07_partial, as an equation**: on candidates that pass `candGuard`, the code as written takes
+    exactly the decision of the intended checks -/
+theorem accept_congr {s : RStore} {cand : RoomNode} (g : candGuard s cand = true) :
+    accept Defects.asImplemented s cand = accept Defects.none s cand := by
+  unfold candGuard at g
+  simp only [Bool.and_eq_true] at g
+  obtain ⟨gp, gm⟩ := g
+  unfold accept
+  simp only [gp, Bool.not_true, Bool.and_false, Bool.false_eq_true, if_false]
+  cases hroom : s.rooms.find? (·.id = cand.node.id) with
+  | none => rfl
+  | some room =>
+    simp only
+    cases hold : readBack s cand.node.id with
+    | none => rfl
+    | some old =>
+      simp only
+      rw [hroom, hold] at gm
+      simp only [Bool.and_eq_true, List.all_eq_true, Bool.or_eq_true, List.isEmpty_iff] at gm
+      rw [prepareWithHistory_congr (by simpa using gm.1)]
+      intro a ha hno
+      rcases gm.2 a ha with h | h
+      · rw [hno] at h; cases h
+      · exact h
+
+/-- with the intended checks a candidate is accepted only if every entry is bound to its list by a
+    placing reference signed by the entry's author -/
+theorem accept_none_placing {s s' : RStore} {cand : RoomNode} (h : accept Defects.none s cand = .ok s') :
+    cand.sigsOk = true ∧ cand.consistent = true ∧ cand.placingOk = true := by
+  unfold accept at h
+  split at h
+  · cases h
+  · next h1 =>
+    split at h
+    · cases h
+    · next h2 =>
+      split at h
+      · cases h
+      · next h3 =>
+        simp only [Bool.not_eq_true', Bool.not_eq_false] at h1 h2
+        simp only [Defects.none, Bool.not_false, Bool.true_and, Bool.not_eq_true', Bool.not_eq_false] at h3
+        exact ⟨h1, h2, h3⟩
+
+/-- inversion of `accept` for any setting of the switches -/
+theorem accept_ok {d : Defects} {s s' : RStore} {cand : RoomNode} (h : accept d s cand = .ok s') :
+    cand.sigsOk = true ∧ cand.consistent = true ∧
+    ((∃ room old, s.rooms.find? (·.id = cand.node.id) = some room ∧ readBack s cand.node.id = some old ∧
+        ∃ merged upd, prepareWithHistory d room old cand = some (.ok (merged, upd)) ∧
+          ((upd = false ∧ s' = s) ∨
+           (upd = true ∧ ∃ r, merged.parse = .ok r ∧ s' = installRoom (writeRoom s merged) r))) ∨
+     (s.rooms.find? (·.id = cand.node.id) = none ∧
+        ∃ r, prepareNewRoom cand = .ok r ∧ s' = installRoom (writeRoom s cand) r)) := by
+  unfold accept at h
+  split at h
+  · cases h
+  · next h1 =>
+    split at h
+    · cases h
+    · next h2 =>
+      split at h
+      · cases h
+      · simp only [Bool.not_eq_true', Bool.not_eq_false] at h1 h2
+        refine ⟨h1, h2, ?_⟩
+        cases hroom : s.rooms.find? (·.id = cand.node.id) with
+        | none =>
+          rw [hroom] at h
+          simp only at h
+          cases hp : prepareNewRoom cand with
+          | error e => rw [hp] at h; cases h
+          | ok r =>
+            rw [hp] at h
+            simp only [Verdict.ok.injEq] at h
+            exact Or.inr ⟨rfl, r, rfl, h.symm⟩
+        | some room =>
+          rw [hroom] at h
+          simp only at h
+          cases hold : readBack s cand.node.id with
+          | none => rw [hold] at h; cases h
+          | some old =>
+            rw [hold] at h
+            simp only at h
+            cases hprep : prepareWithHistory d room old cand with
+            | none => rw [hprep] at h; cases h
+            | some r1 =>
+              rw [hprep] at h
+              cases r1 with
+              | error e => cases h
+              | ok p =>
+                obtain ⟨merged, upd⟩ := p
+                simp only at h
+                refine Or.inl ⟨room, old, rfl, rfl, merged, upd, hprep, ?_⟩
+                cases upd with
+                | false =>
+                  simp only [Bool.false_eq_true, if_false, Verdict.ok.injEq] at h
+                  exact Or.inl ⟨rfl, h.symm⟩
+                | true =>
+                  simp only [if_true] at h
+                  cases hpar : merged.parse with
+                  | error e => rw [hpar] at h; cases h
+                  | ok r =>
+                    rw [hpar] at h
+                    simp only [Verdict.ok.injEq] at h
+                    exact Or.inr ⟨rfl, r, rfl, h.symm⟩
 
 end Discret.RoomNode
